@@ -56,11 +56,32 @@ Theorem C23_handler_thresholds : forall rf rep, 1 <= rf -> 0 <= rep ->
 Proof. exact handler_thresholds. Qed.
 Print Assumptions C23_handler_thresholds.
 
+(* The decisions of replicationErrors.Cause, writeErrors.Cause and canReturnEarly
+   still have the if/return shape the hand model was written from. *)
+Theorem C23_source_shape : skeleton_ok = true.
+Proof. exact skeleton_holds. Qed.
+Print Assumptions C23_source_shape.
+
+(* The exact status, as a function of what the replicas answered and not of
+   the order: 200 iff every series reached quorum; else 409 iff every series
+   that missed quorum collected >= ft conflicts; else 503. (Subsumes the four
+   theorems above under their side conditions; in particular a series whose
+   conflicts tie with its unavailable responses at the threshold is a 409 in
+   every arrival order.) *)
+Theorem C23_status_is_spec : forall n nrep q ft rs,
+  1 <= ft -> q + ft = nrep + 1 -> q <= ft + 1 ->
+  (forall s, (s < n)%nat -> responses_of s rs = nrep) ->
+  fan_status n q ft rs = Some (spec_status n q ft rs).
+Proof. exact fan_status_is_spec. Qed.
+Print Assumptions C23_status_is_spec.
+
 (* Whole request (replica header, bad replica, placement by the hashring,
-   distribution of series to (node, replica) writes): the model is defined and
-   the boolean predicate the check evaluates on the implementation's own
-   status holds of the model's status. *)
+   distribution of series to (node, replica) writes, one response per write):
+   the model is defined and the boolean predicate the check evaluates on the
+   implementation's own status — the specification above with the quorum
+   stated independently of the source — holds of the model's status. *)
 Theorem C23_request_pred : forall rf rep place ws, 1 <= rf -> 0 <= rep ->
+  (forall s, (s < List.length place)%nat -> responses_of s (resps_of place ws) = n_replicas rf rep) ->
   exists st, handle rf rep place ws = Some st /\ pred_ok (CFan rf rep place ws st) = true.
 Proof. exact handle_pred. Qed.
 Print Assumptions C23_request_pred.
@@ -77,12 +98,14 @@ Proof. exact success_threshold_refuted. Qed.
 Print Assumptions C23_success_threshold_refuted.
 
 (* Non-vacuity: rf 4 (q 3, ft 2), two series over 5 nodes; series 0 gets two
-   conflicts -> 409; with one conflict and one unavailable instead -> 503. *)
+   conflicts -> 409; with one conflict and one unavailable instead -> 503;
+   one series, two unavailable THEN two conflicts (the tie) -> 409. *)
 Example C23_nonvacuous :
   handle 4 0 [[0;1;2;3];[1;2;3;4]]%nat
     [(1,1,KConflict);(0,0,KConflict);(2,2,KOk);(3,3,KOk);(1,0,KOk);(2,1,KOk);(3,2,KOk);(4,3,KOk)]%nat = Some 409
   /\ handle 4 0 [[0;1;2;3];[1;2;3;4]]%nat
     [(1,1,KConflict);(0,0,KUnavailGrpc);(2,2,KOk);(3,3,KOk);(1,0,KOk);(2,1,KOk);(3,2,KOk);(4,3,KOk)]%nat = Some 503
+  /\ handle 4 0 [[0;1;2;3]]%nat [(0,0,KUnavailGrpc);(1,1,KUnavailSent);(2,2,KConflict);(3,3,KConflict)]%nat = Some 409
   /\ responses_of 0%nat (resps_of [[0;1;2;3];[1;2;3;4]]%nat
     [(1,1,KConflict);(0,0,KConflict);(2,2,KOk);(3,3,KOk);(1,0,KOk);(2,1,KOk);(3,2,KOk);(4,3,KOk)]%nat) = 4.
 Proof. vm_compute. repeat split; reflexivity. Qed.
